@@ -15,7 +15,13 @@ from bs4.builder._htmlparser import HTMLParserTreeBuilder
 from bs4.exceptions import ParserRejectedMarkup
 import common
 
-RULE = ("(1) corpus of past defects and directed families (two names resolving to one codec; every exclusion pattern of the "
+RULE = ("(0) find_declared_encoding on its own (implementation / scanner model / index-level oracle): every string of <=4 "
+        "(thorough <=5) tokens over alphabets of the pieces the two patterns look at (<, meta, charset, =, quotes, terminators, white "
+        "space, <?, encoding=, ?>, newline; upper/mixed case; for str patterns also NBSP, U+001C, U+0085, long s, dotted/dotless i; the "
+        "same as UTF-8/Latin-1 bytes), 15 <meta> and 7 XML spellings x 4 names pushed across the 2048 / 1024 borders one position at a "
+        "time (dense for some, 12 offsets for the rest in quick), across 5% of 41-60 KB documents, small documents with several "
+        "declarations, random token soups; is_html and search_entire_document both ways, bytes and str; "
+        "(1) corpus of past defects and directed families (two names resolving to one codec; every exclusion pattern of the "
         "defaults; 'ascii' in the replace pass; override_encodings); (2) exhaustive: every byte string of length <=5 (thorough <=6) over "
         "{00,41,BB,BF,EF,FE,FF} through strip_byte_order_mark; the candidate list of EncodingDetector for every "
         "known list of length <=2 x user list <=1 x {no exclusion, 5 single exclusions} over {utf-8, UTF-8, latin-1, "
@@ -32,7 +38,7 @@ RULE = ("(1) corpus of past defects and directed families (two names resolving t
         "Non-trivial = has a non-ASCII byte, a mark, a declaration or any argument. Distinct by (input, arguments).")
 ASSUMPTIONS = [
     "Python's codecs (str(bytes, codec, errors), codecs.lookup) and str.lower are parameters of the model, recorded per case from the interpreter; nothing is assumed about them in the theorems",
-    "the two declared-encoding regexes and their search windows are not modelled: the declared encoding given to the model is the document generator's ground truth (a sniffing fault shows as a disagreement in the final answer)",
+    "find_declared_encoding is modelled (Model/Sniff.v): hand-written scanners for the two patterns, both windows, both flags, bytes and str; the declared encoding is computed by the model from the document, no longer supplied. Not modelled: the regular-expression ENGINE - the scanners' equivalence with pattern.search (which match a backtracking engine reports) is tied by exhaustive token-string sweeps, documents pushed across both window borders one position at a time and fuzzing, not proved; the pattern texts, flags and window constants are pinned by table obligations; the interpreter's meaning of \\s, '.', and of the keyword letters under re.I is oracle data generated from the interpreter",
     "smart_quotes_to is None throughout (the smart-quote step of _convert_from is C19's); chardet is absent in this environment (its answer would be a recorded input)",
     "the BeautifulSoup constructor is observed through HTMLParserTreeBuilder.prepare_markup's yielded tuple and the attributes of the finished object",
 ]
@@ -202,6 +208,114 @@ def check_oracle(ctx, case, obs, api):
         ctx.fail(cj, what, observed, expected, tag=tag)
 
 
+
+# ---------------------------------------------------------------------------------------------------------
+# the direct oracle for the declared encoding: an index-level statement of "the document declares e",
+# independent of the implementation (no `re`, nothing imported from bs4) and of the Coq scanners
+# ---------------------------------------------------------------------------------------------------------
+O_QUOTES = (34, 39)
+O_TERMINATORS = (32, 47, 59, 39, 34, 62)            # space / ; ' " >
+O_CI_EXTRA = {105: (0x130, 0x131), 115: (0x17F,)}   # what else matches i and s in a case-insensitive str pattern
+O_XML_WINDOW, O_HTML_WINDOW, O_HTML_FRACTION = 1024, 2048, 20
+
+
+def o_ws(c, isstr):
+    return chr(c).isspace() if isstr else c in (9, 10, 11, 12, 13, 32)
+
+
+def o_ci(c, p, isstr):
+    """character c is the (lower-case ASCII) pattern character p, up to case"""
+    if c == p or (97 <= p <= 122 and c == p - 32):
+        return True
+    return isstr and c in O_CI_EXTRA.get(p, ())
+
+
+def o_word_at(s, i, word, isstr):
+    return i + len(word) <= len(s) and all(o_ci(s[i + j], word[j], isstr) for j in range(len(word)))
+
+
+def o_xml_declaration(s, isstr):
+    """s: code points. The value of the last encoding=<quote>...<quote> of an XML declaration that starts the
+    text (after white space) and is closed by ?> on the same line; None when there is none."""
+    n, i = len(s), 0
+    while i < n and o_ws(s[i], isstr):
+        i += 1
+    if not (i + 1 < n and s[i] == 60 and s[i + 1] == 63):
+        return None
+    p = e = i + 2
+    while e < n and s[e] != 10:
+        e += 1
+    for k in range(e, p - 1, -1):
+        if k + 9 < e and o_word_at(s[:e], k, b"encoding=", isstr) and s[k + 9] in O_QUOTES:
+            j = k + 10
+            while j < e and s[j] not in O_QUOTES:
+                j += 1
+            if j < e and any(s[m] == 63 and s[m + 1] == 62 for m in range(j + 1, e - 1)):
+                return s[k + 10:j]
+    return None
+
+
+def o_meta_declaration(s, isstr):
+    """The value of the last charset= of the first <meta ...> tag that has one (see the module docstring of
+    Model/Sniff.v for the corner cases: nothing terminating the value, a lone quote)."""
+    n = len(s)
+    for st in range(n):
+        if s[st] != 60:
+            continue
+        i = st + 1
+        while i < n and o_ws(s[i], isstr):
+            i += 1
+        if not o_word_at(s, i, b"meta", isstr):
+            continue
+        m = r = i + 4
+        while r < n and s[r] != 62:
+            r += 1
+        for c in range(r, m, -1):
+            if not o_word_at(s, c, b"charset", isstr):
+                continue
+            u = c + 7
+            while u < n and o_ws(s[u], isstr):
+                u += 1
+            if not (u < n and s[u] == 61):
+                continue
+            q = p0 = u + 1
+            while p0 < n and o_ws(s[p0], isstr):
+                p0 += 1
+
+            def value_from(p):
+                j = p
+                while j < n and s[j] not in O_TERMINATORS:
+                    j += 1
+                return s[p:j] if j < n else None
+            if p0 < n and s[p0] in O_QUOTES:
+                g = value_from(p0 + 1)
+                return g if g is not None else s[0:0]
+            g = value_from(p0)
+            if g is not None:
+                return g
+            if any(s[x] == 32 for x in range(q, p0)):
+                return s[0:0]
+    return None
+
+
+def o_find_declared_raw(data, is_html, entire):
+    """the declared name before lower-casing (a bytes value decoded as ASCII, anything else U+FFFD)"""
+    isstr = isinstance(data, str)
+    s = [ord(ch) for ch in data] if isstr else list(data)
+    xe = len(s) if entire else O_XML_WINDOW
+    he = len(s) if entire else max(O_HTML_WINDOW, len(s) // O_HTML_FRACTION)
+    g = o_xml_declaration(s[:xe], isstr)
+    if g is None and is_html:
+        g = o_meta_declaration(s[:he], isstr)
+    if not g:
+        return None
+    return "".join(chr(c) if (isstr or c < 128) else "\ufffd" for c in g)
+
+
+def o_find_declared(data, is_html, entire):
+    raw = o_find_declared_raw(data, is_html, entire)
+    return None if raw is None else raw.lower()
+
 # ---------------------------------------------------------------------------------------------------------
 # running the implementation
 # ---------------------------------------------------------------------------------------------------------
@@ -302,6 +416,7 @@ def case_names(case, bom):
         names.append(bom)
     if case["declared"] is not None:
         names.append(case["declared"])
+    names += [n for n in (case.get("decl_raw") or []) if n]
     out, seen = [], set()
     for n in names:
         if n not in seen:
@@ -355,20 +470,20 @@ def model_tables(case, texts):
 
 def cmd_dammit(case, texts):
     kind, sn, lo, kw, de = model_tables(case, texts)
-    return [7000, kind, case["data"], case["known"], case["override"], case["user"], case["exclude"], case["is_html"],
+    return [7006, kind, case["data"], case["known"], case["override"], case["user"], case["exclude"], case["is_html"],
             sn, [], lo, kw, de]
 
 
 def cmd_detector(case, texts):
     kind, sn, lo, kw, de = model_tables(case, texts)
-    return [7001, kind, case["data"], case["known"], case["override"], case["user"], case["exclude"], case["is_html"],
+    return [7007, kind, case["data"], case["known"], case["override"], case["user"], case["exclude"], case["is_html"],
             sn, [], lo]
 
 
 def cmd_ctor(case, texts):
     kind, sn, lo, kw, de = model_tables(case, texts)
     fe = case["known"][0] if case["known"] else None
-    return [7002, kind, case["data"], common.opt(fe), case["exclude"], sn, [], lo, kw, de]
+    return [7008, kind, case["data"], common.opt(fe), case["exclude"], sn, [], lo, kw, de]
 
 
 def s_(l):
@@ -416,13 +531,13 @@ def dec_ctor(mv, texts, case):
 # cases
 # ---------------------------------------------------------------------------------------------------------
 def mkcase(data, known=(), user=(), exclude=(), override=(), is_html=True, declared=None, decl_claim=True,
-           declared_if_html=None, note=None, none_args=False, declared_alt=None):
+           declared_if_html=None, note=None, none_args=False, declared_alt=None, decl_raw=()):
     """declared: ground truth of the declared encoding of the BOM-stripped document under is_html;
     declared_if_html: what it would be with is_html=True when is_html is False (unused by the property);
     decl_claim: the oracle may insist on declared_html_encoding (declaration well inside the searched part)."""
     return {"data": data, "known": list(known), "user": list(user), "exclude": list(exclude), "override": list(override),
             "is_html": bool(is_html), "declared": declared, "decl_claim": decl_claim, "declared_if_html": declared_if_html,
-            "note": note, "none_args": none_args, "declared_alt": declared_alt}
+            "note": note, "none_args": none_args, "declared_alt": declared_alt, "decl_raw": list(decl_raw)}
 
 
 def case_json(case):
@@ -449,7 +564,7 @@ def case_from_json(d):
         d.pop(k, None)
     d["data"] = data
     for k, v in (("known", []), ("user", []), ("exclude", []), ("override", []), ("is_html", True), ("declared", None),
-                 ("decl_claim", True), ("declared_if_html", None), ("note", None), ("none_args", False), ("declared_alt", None)):
+                 ("decl_claim", True), ("declared_if_html", None), ("note", None), ("none_args", False), ("declared_alt", None), ("decl_raw", [])):
         d.setdefault(k, v)
     return d
 
@@ -793,6 +908,7 @@ def random_cases(ctx, count):
         out.append(mkcase(doc["data"], known, user, exclude, override, is_html, declared, decl_claim=doc["claim"],
                           declared_if_html=doc["truth_html"], none_args=rng.random() < 0.2,
                           declared_alt=(doc["alt"] if (is_html or doc["has_decl"] == "xml") else None),
+                          decl_raw=[doc["name"]],
                           note="%s%s%s" % (doc["codec"], " +BOM" if doc["bom"] else "",
                                            " decl=%s:%s" % (doc["has_decl"], doc["name"]) if doc["has_decl"] else "")))
     return out
@@ -823,7 +939,7 @@ def str_cases(ctx, count):
             truth_now = truth
         known = [pick_name(rng, "utf-8")] if rng.random() < 0.4 else []
         out.append(mkcase(doc, known, [], [pick_name(rng, "utf-8")] if rng.random() < 0.2 else [], [], is_html,
-                          truth_now, declared_if_html=truth, note="str input"))
+                          truth_now, declared_if_html=truth, note="str input", decl_raw=[name]))
     return out
 
 
@@ -1078,11 +1194,203 @@ def run_cases(ctx, cases, label, detector=True, dammit=True, ctor=True, budget_n
             ctx.disagree(name, dict(case_json(case), api=api, differs=diff), show(obs), show(m))
 
 
+
+# ---------------------------------------------------------------------------------------------------------
+# find_declared_encoding on its own: implementation / scanner model (7005) / index-level oracle
+# ---------------------------------------------------------------------------------------------------------
+def sniff_impl(data, h, e):
+    try:
+        return EncodingDetector.find_declared_encoding(data, h, e)
+    except Exception as ex:
+        return "EXC:" + type(ex).__name__ + ":" + str(ex)[:60]
+
+
+def sniff_case_json(data, h, e, note):
+    d = {"sniff": True, "is_html": h, "search_entire_document": e, "note": note, "api": "find_declared_encoding",
+         "length": len(data)}
+    if len(data) <= 4000:
+        if isinstance(data, str):
+            d["data_str_codepoints"] = [ord(c) for c in data]
+        else:
+            d["data_hex"] = data.hex()
+    else:
+        d["head_hex"] = (data[:3200].encode("utf-8", "replace") if isinstance(data, str) else data[:3200]).hex()
+    return d
+
+
+def sniff_batch(ctx, items, label):
+    """items: (data, is_html, search_entire_document, note)"""
+    cmds, got_all = [], []
+    for data, h, e, note in items:
+        got = sniff_impl(data, h, e)
+        raw = o_find_declared_raw(data, h, e)
+        exp = None if raw is None else raw.lower()
+        ctx.case(("sniff", data, h, e), nontrivial=(exp is not None or got is not None))
+        if got != exp:
+            ctx.fail(sniff_case_json(data, h, e, note),
+                     "find_declared_encoding does not report what the document declares (XML declaration at the very start "
+                     "within 1024, else for HTML the first <meta ... charset=> within max(2048, 5%); case-insensitive keywords)",
+                     got, exp, tag="sniff")
+        lo = [[raw, raw.lower()]] if raw and raw.lower() != raw else []
+        cmds.append([7005, 0 if isinstance(data, str) else 1, data, h, e, lo])
+        got_all.append(got)
+    ctx.count(label, len(items))
+    if items:
+        i = len(items) // 3
+        ctx.sample({"batch": label, "case": sniff_case_json(*items[i]), "impl": got_all[i]})
+    if not ctx.build.model_ok:
+        return
+    for (data, h, e, note), got, mv in zip(items, got_all, ctx.model.run(cmds, chunk=4000)):
+        m = ("MODEL-" + str(mv)) if isinstance(mv, tuple) else s_(common.unopt(mv))
+        if got != m:
+            ctx.disagree("EncodingDetector.find_declared_encoding ~ Model.Sniff.find_declared_encoding",
+                         sniff_case_json(data, h, e, note), got, m)
+
+
+ALL_FLAGS = [(True, False), (False, False), (True, True), (False, True)]
+
+
+def token_strings(toks, L):
+    for l in range(L + 1):
+        for combo in itertools.product(toks, repeat=l):
+            yield "".join(combo)
+
+
+def sniff_token_sweeps(ctx):
+    """every string of <= L tokens over small alphabets built from the pieces the two patterns look at"""
+    L = 5 if ctx.thorough else 4
+    html_a = ["<", "meta", " ", "charset", "=", '"', "x", ">", ";", "\t"]
+    html_b = ["<meta ", "<META\t", "ChArSeT", "charset=", "'", "Y", ">", "/", " ", "\n", "="]
+    xml_a = [" ", "<?", "encoding=", '"', "'", "X", "?>", "\n", "ENCODING='"]
+    items = []
+    for t in token_strings(html_a, L):
+        items.append((t.encode(), True, False, "html tokens"))
+    for t in token_strings(html_b, L if ctx.thorough else L - 1):
+        items.append((t.encode(), True, False, "html tokens"))
+        if len(t) % 3 == 0:
+            items.append((t.encode(), True, True, "html tokens"))
+            items.append((t.encode(), False, False, "html tokens"))
+    for t in token_strings(xml_a, L):
+        items.append((t.encode(), False, False, "xml tokens"))
+        if len(t) % 2 == 0:
+            items.append((t.encode(), True, True, "xml tokens"))
+    # str patterns: the characters that only a str pattern treats as white space / as letters
+    html_s = ["<", "meta", " ", "\xa0", "\x1c", "charſet", "CHARSET", "=", '"', "\xe9", ">", "İ"]
+    xml_s = [" ", "\xa0", "<?", "encodıng=", "ENCODİNG=", "encoding=", '"', "\xfc", "?>", "\n", "\x85"]
+    Ls = 4 if ctx.thorough else 3
+    for t in token_strings(html_s, Ls):
+        items.append((t, True, False, "html tokens (str)"))
+    for t in token_strings(xml_s, Ls):
+        items.append((t, len(t) % 2 == 0, False, "xml tokens (str)"))
+    # the same specials as UTF-8 / Latin-1 *bytes* must not be treated that way
+    for t in token_strings(["<meta ", "charſet", "charset", "=", "x", ">", "\xa0"], 4):
+        items.append((t.encode("utf-8"), True, False, "html tokens (non-ASCII bytes)"))
+        items.append((t.replace("ſ", "s").encode("latin-1"), True, False, "html tokens (non-ASCII bytes)"))
+    sniff_batch(ctx, items, "sniff_token_sweeps")
+
+
+META_TEMPLATES = ['<meta charset="%s">', "<meta charset='%s'>", "<meta charset=%s>", '<META CHARSET="%s">',
+                  '<MeTa ChArSeT = "%s" />', '<meta http-equiv="Content-Type" content="text/html; charset=%s">',
+                  "<meta\tcharset\n=\r\n'%s' >", '< meta name=x charset=%s;y>', '<meta charset="%s', "<meta charset=%s",
+                  '<meta name="a"><meta charset=%s>', '<meta charset=a charset="%s">', "<meta charset= %s >",
+                  '<metadata x="1" charset=%s>', "<meta charset=\"%s'>"]
+XML_TEMPLATES = ['<?xml version="1.0" encoding="%s"?>', "<?XML ENCODING='%s' ?>", '<?xml encoding="%s\'?>',
+                 '<?xml encoding=%s?>', '<?xml encoding="%s"?><?pi encoding="other"?>', '<?xml encoding="%s" ?',
+                 '<?xml\tversion="1.0"\tEnCoDiNg="%s"\tstandalone="yes"?>']
+SNIFF_TAIL = "</head><body>text</body></html>"
+
+
+def sniff_documents(ctx):
+    """declarations pushed across both window borders one position at a time, in many spellings"""
+    rng = ctx.rng
+    items = []
+    full = ctx.thorough
+    names = ["Big5", "ISO-8859-1", "x", ""]
+
+    def offsets(edge, decl, dense):
+        lo, hi = max(0, edge - len(decl) - 3), edge + 3
+        if dense:
+            return list(range(lo, hi + 1))
+        return sorted({max(0, edge - len(decl) + d) for d in range(-3, 4)} | {lo, hi} |
+                      {rng.randrange(lo, hi + 1) for _ in range(3)})
+    for ti, tpl in enumerate(META_TEMPLATES):
+        for ni, name in enumerate(names if (full or ti % 3 == 0) else names[:2]):
+            decl = tpl % name
+            for pad in offsets(2048, decl, full or (ti < 3 and ni == 0)):
+                if pad >= 23:
+                    pre = "<html><head><!--" + (FILL * 60)[:pad - 19] + "-->"
+                else:
+                    pre = " " * pad
+                doc = pre + decl + SNIFF_TAIL
+                assert len(pre) == pad
+                flags = ALL_FLAGS if (full or pad % 5 == 0) else [(True, False)]
+                for h, e in flags:
+                    items.append((doc.encode("ascii"), h, e, "meta across the 2048 border"))
+                if pad % 4 == 0:
+                    items.append((doc, True, False, "meta across the 2048 border (str)"))
+    for ti, tpl in enumerate(XML_TEMPLATES):
+        for ni, name in enumerate(names if full else names[:2]):
+            decl = tpl % name
+            for pad in offsets(1024, decl, full or (ti < 2 and ni == 0)):
+                doc = (" \n\t\r" * 300)[:pad] + decl + '<html><meta charset="late"></html>'
+                flags = ALL_FLAGS if (full or pad % 5 == 0) else [(False, False), (True, False)]
+                for h, e in flags:
+                    items.append((doc.encode("ascii"), h, e, "XML declaration across the 1024 border"))
+                if pad % 4 == 0:
+                    items.append((doc, True, False, "XML declaration across the 1024 border (str)"))
+    # small documents with several declarations / distractions
+    small = ['<?xml encoding="a"?><meta charset=b>', '\n<?xml encoding="a"?>', 'x<?xml encoding="a"?><meta charset=b>',
+             '<?xml encoding="a"\n?><meta charset=b>', '<meta name=a><meta charset=b><meta charset=c>',
+             '<meta charset=b charset=c>', '<meta charset=b><?xml encoding="a"?>', '<meta>charset=b>', '<meta charset>=b>',
+             '<meta charset=>', '<meta charset="', "<meta charset='>", '<meta charset= ', '<meta charset=\t', '<metacharset=b>',
+             '<meta xcharset=b>', '<meta\ncharset=b/>', '<META HTTP-EQUIV=content-type CONTENT="text/html;CHARSET=B;x">',
+             '<?xml encoding="a" encoding=\'b\'?>', '<?xml encoding="a"?> ?>', '<?xml encoding="a?>', "<?xml encoding=\"a'?>x'?>",
+             '<?xml version="1.0"?><meta charset=b>', '<!-- <meta charset=a> --><meta charset=b>', '<meta charset=\xe9\xe8>',
+             '<  meta charset=b>', '<\n\t meta charset=b>', '<meta  charset=b>', '<meta charset\t\t=\n\nb>', '<?xml  encoding="a"  ?>',
+             '<?xml encoding="\xe9"?>', ' \x0b\x0c<?xml encoding="a"?>', '\x1c<?xml encoding="a"?>', '\xa0<?xml encoding="a"?>']
+    for d in small:
+        for h, e in ALL_FLAGS:
+            items.append((d.encode("latin-1"), h, e, "small document"))
+            items.append((d, h, e, "small document (str)"))
+    # the 5% rule, one position at a time
+    for Ln in ([41000, 50020, 59999] if full else [41000, 59999]):
+        edge = Ln // 20
+        decl = "<meta charset=Big5>"
+        for d in (range(-4, 5) if full else (-2, -1, 0, 1, 2)):
+            pad = edge - len(decl) + d
+            doc = "a" * pad + decl
+            doc = doc + "b" * (Ln - len(doc))
+            items.append((doc.encode("ascii"), True, False, "meta across the 5% border"))
+            if d == 1 or full:
+                items.append((doc.encode("ascii"), True, True, "meta across the 5% border"))
+                items.append((doc, True, False, "meta across the 5% border (str)"))
+    sniff_batch(ctx, items, "sniff_documents")
+
+
+def sniff_fuzz(ctx):
+    rng = ctx.rng
+    toks = ["<", "<meta", "<META ", "meta", " ", "\t", "\n", "charset", "Charset", "charset=", "=", '"', "'", "x", "utf-8", ">",
+            "/", ";", "<?", "<?xml ", "encoding=", "ENCODING=", "?>", "?", "\xe9", "ſ", "İ", "ı", "\xa0", "\x1c",
+            "a", "-"]
+    items = []
+    for _ in range(30000 if ctx.thorough else 2500):
+        t = "".join(rng.choice(toks) for _ in range(rng.randint(3, 14)))
+        h, e = rng.choice(ALL_FLAGS)
+        if rng.random() < 0.5:
+            items.append((t, h, e, "fuzz (str)"))
+        else:
+            items.append((t.encode("utf-8") if rng.random() < 0.7 else t.encode("latin-1", "replace"), h, e, "fuzz"))
+    sniff_batch(ctx, items, "sniff_fuzz")
+
+
 def run(ctx):
     with warnings.catch_warnings():
         warnings.simplefilter("ignore")
         run_cases(ctx, corpus_cases(), "corpus")
         run_cases(ctx, directed_cases(ctx), "directed")
+        sniff_token_sweeps(ctx)
+        sniff_documents(ctx)
+        sniff_fuzz(ctx)
         bom_sweep(ctx)
         find_codec_sweep(ctx)
         utf8 = "<p>café €</p>".encode("utf-8")
@@ -1107,6 +1415,18 @@ def run(ctx):
 def replay(ctx, data):
     f = (data.get("failure") or {})
     cj = f.get("case") or ((data.get("disagreements") or [{}])[0].get("case")) or {}
+    if cj.get("sniff"):
+        if cj.get("data_hex") is not None:
+            data = bytes.fromhex(cj["data_hex"])
+        elif cj.get("data_str_codepoints") is not None:
+            data = "".join(map(chr, cj["data_str_codepoints"]))
+        else:
+            print("document too long to be stored; first bytes:", bytes.fromhex(cj.get("head_hex", ""))[:200])
+            return 1
+        h, e = cj["is_html"], cj["search_entire_document"]
+        print("find_declared_encoding(%r, is_html=%r, search_entire_document=%r) = %r ; the document declares %r"
+              % (data if len(data) < 300 else data[:300], h, e, sniff_impl(data, h, e), o_find_declared(data, h, e)))
+        return 1
     if "name" in cj:
         print("find_codec(%r) = %r ; documented resolution %r" % (cj["name"], UnicodeDammit(b"x").find_codec(cj["name"]), o_resolve(cj["name"])))
         return 1
